@@ -36,6 +36,9 @@ def encode_array(obj):
     def default_encode(obj):
         return obj.tolist(), {}
 
+    # variables may hold plain (nested) lists
+    obj = np.asarray(obj)
+
     encoders = {
         "m": encode_timedelta,
         "M": encode_datetime,
